@@ -196,13 +196,26 @@ void Groups::evalArguments( int argc, char* argv[]) noexcept( false)
 
    for (auto ai = alp.begin(); ai != alp.end(); ++ai)
    {
-      auto  result = Handler::ArgResult::unknown;
+      auto        result = Handler::ArgResult::unknown;
+      const bool  is_value
+         = ai->mElementType == detail::ArgListElement::Type::value;
       for (auto & stored_group : mArgGroups)
       {
          result = stored_group.mpArgHandler->evalSingleArgument( ai, alp.end());
          if (result != Handler::ArgResult::unknown)
          {
             usage_printed |= stored_group.mpArgHandler->usagePrinted();
+
+            // the handlers after this one did not see this argument, so the
+            // argument that they handled last is not the last argument anymore
+            if (!is_value)
+            {
+               for (auto & other_group : mArgGroups)
+               {
+                  if (other_group.mpArgHandler != stored_group.mpArgHandler)
+                     other_group.mpArgHandler->mpLastArg = nullptr;
+               } // end for
+            } // end if
             break;   // for
          } // end if
       } // end for
